@@ -12,7 +12,8 @@ def nontrivial(b):
 
 
 def run(tier, seed):
-    mcs = [("MC_Freeze", "MC_Freeze_check.cfg", {"MaxCycles": 2 if tier == "thorough" else 1}, "c04")]
+    mcs = [("MC_Freeze", "MC_Freeze_check.cfg", {"MaxCycles": 2 if tier == "thorough" else 1}, "c04"),
+           ("MC_FreezeRead", "MC_FreezeRead_check.cfg", {}, "c04-readmc")]
     if tier == "quick":
         gens = [("MC_Freeze", "MC_Freeze_check.cfg", {"Times": "{0, 1}", "MaxCycles": 1}, "c04-day", {"every": 12}),
                 ("MC_Freeze", "MC_Freeze_check.cfg", {"Times": "{0, 1}", "MaxCycles": 1}, "c04-sec", {"every": 50, "tick": 2}),
@@ -23,6 +24,8 @@ def run(tier, seed):
                 ("MC_Freeze", "MC_Freeze_check.cfg", {"Times": "{0, 1}", "MaxCycles": 1}, "c04-year", {"tick": 400 * 86400, "every": 5}),
                 ("MC_Freeze", "MC_Freeze_check.cfg", {"Times": "{0, 1, 2, 3, 4}", "MaxCycles": 3, "Exps": "{0, 1, 3, 9}"}, "c04-sim",
                  {"simulate": 4000, "depth": 60})]
+    # reads after the load: four independent expirations, the clock moving between load and read
+    gens.append(("MC_FreezeRead", "MC_FreezeRead_check.cfg", {}, "c04-read", {"every": 2 if tier == "quick" else 1}))
     v, cov, a, _ = clientlib.run_plan(PID, tier, seed, mcs, gens, FIELDS, nontrivial,
         "behaviours = every path of MC_Freeze: each of root(s)/timestamp/snapshot/targets expired or not, an expired intermediate root, both enforcement settings, the clock jumping to any tick between any two phases and before a read; non-trivial = the clock moved and something expires; distinct TLC paths",
         ASSUME)
